@@ -94,6 +94,23 @@ theorem C12_gen_class_inventory :
     (drivenNicClasses ++ listedNicClasses).all (fun c => (Gen.Power.nicClasses.map (fun c => (c.1, c.2.1))).contains c) = true := by
   decide
 
+/-- every definition of `enable()` / `disable()` at or below `NetworkInterface`: the two guarded base implementations
+(`C12_gen_interfaces` reads their refusal lists), the two `IP…` wrappers that call `super().enable()` first, the two plain
+`disable()`s, the abstract pair, and the two modules under `network_interface/wireless/` that cannot be imported. No
+interface class a node carries (NIC, RouterInterface, SwitchPort, the wireless router's access point) defines its own —
+an override there would bypass the node-is-on test, and would appear here as a new entry. -/
+theorem C12_gen_nic_enable_defs :
+    Gen.Power.nicEnableDefs =
+      [("IPWirelessNetworkInterface@airspace.py", "enable", "super+hello"),
+       ("WirelessNetworkInterface@airspace.py", "enable", "guarded"),
+       ("WirelessNetworkInterface@airspace.py", "disable", "plain-disable"),
+       ("IPWiredNetworkInterface@base.py", "enable", "super+hello"),
+       ("NetworkInterface@base.py", "enable", "abstract"), ("NetworkInterface@base.py", "disable", "abstract"),
+       ("WiredNetworkInterface@base.py", "enable", "guarded"), ("WiredNetworkInterface@base.py", "disable", "plain-disable"),
+       ("WirelessAccessPoint@wireless_access_point.py", "enable", "other"),
+       ("WirelessAccessPoint@wireless_access_point.py", "disable", "other"),
+       ("WirelessNIC@wireless_nic.py", "enable", "other"), ("WirelessNIC@wireless_nic.py", "disable", "other")] := by decide
+
 /-! ### 2. what runs per tick -/
 
 /-- the statement list computes `tick` -/
